@@ -1237,7 +1237,21 @@ func (c Code) String() string {
 // defmacro calls and converts unquoted lists to functions.
 func (c Code) Compile() {
 	scope := NewScope()
+	// A definition belongs to the package that is current at its place in
+	// the code and sees the packages used at that place, so the defpackage,
+	// in-package, and use-package forms are followed while the definitions
+	// are evaluated. The in-package and use-package forms are evaluated
+	// again, in their place, with the rest of the code.
+	origPkg := CurrentPackage
+	defer func() {
+		if CurrentPackage != origPkg {
+			CLPkg.Set("*package*", origPkg)
+		}
+	}()
+	pkgs := make([]*Package, len(c)) // the package current at each place
+	end := len(c)
 	for i, obj := range c {
+		pkgs[i] = CurrentPackage
 		list, ok := obj.(List)
 		if !ok || len(list) == 0 {
 			continue
@@ -1263,6 +1277,28 @@ func (c Code) Compile() {
 		case "defun", "defmacro", "defvar", "defparameter", "defconstant":
 			f = ListToFunc(scope, list, 0)
 			c[i] = f
+		case "defpackage":
+			// A package has to be there before the definitions in it.
+			if pkg, done := evalAhead(scope, list); done {
+				if newQuote == nil {
+					newQuote = CLPkg.GetFunc("quote").Create
+				}
+				c[i] = newQuote(List{pkg})
+			} else {
+				end = i
+			}
+		case "in-package", "use-package":
+			if _, done := evalAhead(scope, list); !done {
+				end = i
+			}
+		}
+		if end < len(c) {
+			// The package form needs a form before it that is not a
+			// definition, a load, require, or make-package, to be evaluated
+			// first. The package of the code from here on is not known
+			// until then, it is left to be compiled and evaluated form by
+			// form in its place.
+			break
 		}
 		if f != nil {
 			name := f.Eval(scope, 0)
@@ -1273,13 +1309,27 @@ func (c Code) Compile() {
 		}
 	}
 	// Now convert lists to functions.
-	for i, obj := range c {
+	for i, obj := range c[:end] {
 		list, ok := obj.(List)
 		if !ok || len(list) == 0 {
 			continue
 		}
+		if pkgs[i] != CurrentPackage {
+			CLPkg.Set("*package*", pkgs[i])
+		}
 		c[i] = CompileList(list)
 	}
+}
+
+// evalAhead evaluates a package form while the definitions are evaluated,
+// ahead of its place. It is not done if the evaluation fails.
+func evalAhead(scope *Scope, list List) (result Object, done bool) {
+	defer func() {
+		if recover() != nil {
+			done = false
+		}
+	}()
+	return ListToFunc(scope, list, 0).Eval(scope, 0), true
 }
 
 // Eval all code elements and return the value of the last evaluation.
